@@ -16,6 +16,7 @@ import (
 	"regexp"
 	"strconv"
 	"strings"
+	"syscall"
 	"time"
 )
 
@@ -178,6 +179,7 @@ type windowTrace struct {
 	End      bool // the end marker was reached
 	EndNth   int  // the end marker's call (newfstatat) count on its thread
 	EndPID   int
+	LastCall int    // the last call on the database handle the child announced (.c04-call-<k>)
 	KilledAt string // class of the call the main thread was in when it was killed ("" if none, "end" for the marker)
 }
 
@@ -260,6 +262,11 @@ func abstractWindowLive(lines []sysLine, state, cwd, liveName string) windowTrac
 				pi = 0
 			}
 			if p, okp := strArg(l, pi); okp {
+				if i := strings.LastIndex(p, "/.c04-call-"); i >= 0 {
+					// the child announces call k on the database handle
+					fmt.Sscan(p[i+len("/.c04-call-"):], &w.LastCall)
+					continue
+				}
 				if strings.HasSuffix(p, "/.c04-begin") {
 					in, w.Begin = true, true
 					continue
@@ -486,10 +493,31 @@ func (w windowTrace) classes() []string {
 // ---- running the child ----
 
 type childRun struct {
-	Dir    string // scratch directory of this run (state directory is Dir/state)
-	Trace  windowTrace
-	Result *c04Result // nil if the child did not finish
-	Exit   string
+	Dir      string // scratch directory of this run (state directory is Dir/state)
+	Trace    windowTrace
+	Result   *c04Result // nil if the child did not finish
+	Exit     string
+	Partial  *c04Result // TimedOut: the child's notes so far (the operation's own outcome), if any
+	TimedOut bool // the outer bound struck: the child (and strace) were killed
+}
+
+// a child run takes about 60 ms; one whose handle is deadlocked is ended after this
+const childTimeout = 8 * time.Second
+
+var c04CallNames = map[int]string{
+	1: "call 1 (the operation itself)",
+	2: "call 2 (WriteGen after the operation)",
+	3: "call 3 (listing what the handle serves after the operation)",
+	4: "call 4 (the same operation once more, after the reported error)",
+	5: "call 5 (WriteGen and listing after the retried operation)",
+}
+
+// hungCall names the call on the database handle a timed-out child was in.
+func (cr childRun) hungCall() string {
+	if n, ok := c04CallNames[cr.Trace.LastCall]; ok {
+		return n
+	}
+	return "an unannounced call (before the operation)"
 }
 
 // runChild executes `self c04child` under strace with an optional injection expression.
@@ -514,6 +542,7 @@ func runChild(dir string, spec c04Spec, inject string) (childRun, error) {
 	args = append(args, self, "c04child", "-replay", specFile, "-out", resFile)
 	cmd := exec.Command("strace", args...)
 	cmd.Dir = dir
+	cmd.SysProcAttr = &syscall.SysProcAttr{Setpgid: true} // strace and its tracee: one process group, so that both can be ended
 	var stderr bytes.Buffer
 	cmd.Stderr = &stderr
 	done := make(chan error, 1)
@@ -523,12 +552,24 @@ func runChild(dir string, spec c04Spec, inject string) (childRun, error) {
 	go func() { done <- cmd.Wait() }()
 	select {
 	case err = <-done:
-	case <-time.After(60 * time.Second):
-		cmd.Process.Kill()
-		<-done
-		return cr, fmt.Errorf("child timed out under strace")
+	case <-time.After(childTimeout):
+		// strace is asked to end first (it then completes its output file); that leaves the tracee
+		// running, so the whole process group is killed afterwards.
+		syscall.Kill(cmd.Process.Pid, syscall.SIGTERM)
+		select {
+		case <-done:
+		case <-time.After(3 * time.Second):
+		}
+		syscall.Kill(-cmd.Process.Pid, syscall.SIGKILL)
+		select {
+		case <-done:
+		default:
+			<-done
+		}
+		cr.TimedOut = true
+		cr.Exit = "the child did not finish within " + childTimeout.String() + " and was killed"
 	}
-	if err != nil {
+	if err != nil && !cr.TimedOut {
 		cr.Exit = err.Error()
 	}
 	lines, perr := parseStrace(traceFile)
@@ -540,6 +581,8 @@ func runChild(dir string, spec c04Spec, inject string) (childRun, error) {
 		var r c04Result
 		if json.Unmarshal(rb, &r) == nil && r.Done {
 			cr.Result = &r
+		} else if cr.TimedOut && json.Unmarshal(rb, &r) == nil {
+			cr.Partial = &r // what the child had noted before the call that never returned
 		}
 	}
 	return cr, nil
